@@ -284,7 +284,8 @@ def parse_tsan(unit, se, case):
 class Unit:
     """One binary + arguments, run over a range of cases in batches."""
 
-    def __init__(self, engine, cfg, kind, flavour, args, cases, batch=25, std="c++17", label=None, extra_defs=()):
+    def __init__(self, engine, cfg, kind, flavour, args, cases, batch=25, std="c++17", label=None, extra_defs=(), timeout=300):
+        self.timeout = timeout
         self.engine, self.cfg, self.kind, self.flavour, self.args, self.cases, self.batch, self.std = engine, cfg, kind, flavour, dict(args), cases, batch, std
         self.extra_defs = tuple(extra_defs)
         self.label = label or "%s|%s|%s|%s" % (engine, cfg, kind, flavour)
@@ -307,8 +308,9 @@ class Unit:
         return a
 
 
-def run_batch(unit, lo, hi, timeout=150):
+def run_batch(unit, lo, hi, timeout=None):
     """Runs cases [lo,hi) of a unit; survives the death of the child. Appends to unit.events / case_ends / summaries."""
+    timeout = timeout or unit.timeout
     env = dict(os.environ)
     env.update(RUN_ENV)
     cur = lo
@@ -374,6 +376,14 @@ def run_batch(unit, lo, hi, timeout=150):
             retried_hang = True  # inconclusive: run the same case once more before calling it a hang
             unit.hangs += 1
             cur = case
+            continue
+        if hang:
+            # the wall-clock watchdog fired twice on the same case: that is no verdict on a loaded machine (an endless loop is
+            # caught by the per-case CPU-time watchdog inside the engine instead): inconclusive
+            unit.errors.append("wall-clock watchdog (%ds) fired twice on case %s" % (timeout, case))
+            unit.case_ends.append({"t": "case_end", "case": case, "died": True, "nt": {}, "hash": "hang%d" % case, "steps": 0})
+            cur = case + 1
+            retried_hang = False
             continue
         kind = classify_stderr(se)
         if sig == "CPU-WATCHDOG":
